@@ -470,15 +470,62 @@ func checkC08Apply(p *Prog, r *Result) {
 			return true
 		}
 		// `if incr { resp.Add(x) } else { resp.Sub(x) }` with x the given object, in fn (the function or a local closure)
-		dirSwitch := func(fn *FuncNode, s *ast.IfStmt, x types.Object, incr types.Object) bool {
-			if fn.objOf(s.Cond) == incr && s.Init == nil && s.Else != nil && len(s.Body.List) == 1 {
-				if eb, ok := s.Else.(*ast.BlockStmt); ok && len(eb.List) == 1 {
-					m1, a1 := methodCallOn(fn, s.Body.List[0])
-					m2, a2 := methodCallOn(fn, eb.List[0])
-					return m1 == "Add" && m2 == "Sub" && a1 != nil && a1 == a2 && a1 == x
-				}
+		// the statements add x when incr holds and subtract it when it does not, and do nothing else: exactly one
+		// `recv.Add(x)` reached under incr and one `recv.Sub(x)` reached under !incr (if/else, or early return)
+		dirApplied := func(fn *FuncNode, stmts []ast.Stmt, x types.Object, incr types.Object) bool {
+			if len(stmts) == 0 {
+				return false
 			}
-			return false
+			blk := &ast.BlockStmt{List: stmts, Lbrace: stmts[0].Pos(), Rbrace: stmts[len(stmts)-1].End()}
+			var adds, subs []*ast.CallExpr
+			other := false
+			inspectNoLit(blk, func(n ast.Node) bool {
+				switch y := n.(type) {
+				case *ast.CallExpr:
+					sel, ok := unparen(y.Fun).(*ast.SelectorExpr)
+					if ok && len(y.Args) == 1 && fn.objOf(y.Args[0]) == x && (sel.Sel.Name == "Add" || sel.Sel.Name == "Sub") {
+						if sel.Sel.Name == "Add" {
+							adds = append(adds, y)
+						} else {
+							subs = append(subs, y)
+						}
+					} else {
+						other = true
+					}
+				case *ast.AssignStmt, *ast.IncDecStmt, *ast.ForStmt, *ast.RangeStmt, *ast.GoStmt, *ast.DeferStmt, *ast.SendStmt:
+					other = true
+				}
+				return true
+			})
+			if other || len(adds) != 1 || len(subs) != 1 {
+				return false
+			}
+			under := func(c *ast.CallExpr) (val, known bool) {
+				conds, ok := pathConds(blk, c)
+				if !ok {
+					return false, false
+				}
+				for _, cl := range conds {
+					e, pos := unparen(cl.Expr), cl.Pos
+					for {
+						u, isNot := e.(*ast.UnaryExpr)
+						if !isNot || u.Op != token.NOT {
+							break
+						}
+						e, pos = unparen(u.X), !pos
+					}
+					if fn.objOf(e) == incr {
+						return pos, true
+					}
+				}
+				return false, false
+			}
+			va, ka := under(adds[0])
+			vs, ks := under(subs[0])
+			return ka && ks && va && !vs
+		}
+		dirSwitch := func(fn *FuncNode, s *ast.IfStmt, x types.Object, incr types.Object) bool {
+			return dirApplied(fn, []ast.Stmt{s}, x, incr)
 		}
 		for _, st := range rs.Body.List {
 			switch s := st.(type) {
@@ -504,7 +551,7 @@ func checkC08Apply(p *Prog, r *Result) {
 				// switch on the parameter that receives x (and on incr, captured or handed in)
 				good := false
 				if c, ok := unparen(s.X).(*ast.CallExpr); ok && len(c.Args) >= 1 {
-					if t, ok := p.resolveFuncArg(F, c.Fun); ok && t != nil && t.Body != nil && len(t.Body.List) == 1 {
+					if t, ok := p.resolveFuncArg(F, c.Fun); ok && t != nil && t.Body != nil && len(t.Body.List) >= 1 {
 						valIdx, tIncr := -1, incr
 						for i, a := range c.Args {
 							switch o := F.objOf(a); {
@@ -516,7 +563,7 @@ func checkC08Apply(p *Prog, r *Result) {
 								valIdx, conv = i, true
 							}
 						}
-						if is, ok := t.Body.List[0].(*ast.IfStmt); ok && valIdx >= 0 && t.paramObj(valIdx) != nil && tIncr != nil && dirSwitch(t, is, t.paramObj(valIdx), tIncr) {
+						if valIdx >= 0 && t.paramObj(valIdx) != nil && tIncr != nil && dirApplied(t, t.Body.List, t.paramObj(valIdx), tIncr) {
 							good = true
 						}
 					}
